@@ -43,6 +43,9 @@ ASSUMPTIONS = [
     "the DeviceListener implements both methods of pyatv.interface.DeviceListener",
     "Features.in_state(states) with no feature names (a query that touches nothing) is not counted as a call on the device",
     "reports are delivered at event granularity: a report is the evaluation of device_listener.listener.<method>, as in the protocols",
+    "'the registered device listener receives at most one notification over the lifetime of one device object' is counted over "
+    "ALL listener objects the application registers during that lifetime (atv.listener may be assigned again, to the same object, a new "
+    "one, or None, at any point)",
     "'after any protocol reports' includes the notification callback itself: a public-API call made from inside the "
     "DeviceListener callback must already raise BlockedStateError, and the device must be blocked whether or not the callback raises",
     "an exception raised by the user's own handler may propagate to whoever invoked it (the reporting protocol, or the "
@@ -225,6 +228,8 @@ class Env:
         self.lmode = lmode
         self.listener_obj = None
         self.push_listener = PushRecorder(env)
+        self.push_listeners = [self.push_listener]
+        self.listeners = []        # every DeviceListener object registered during the lifetime (strong references)
         self._Recorder = Recorder
 
     def _make_reporter(self, kind):
@@ -262,6 +267,8 @@ class Env:
         if self.lmode in ("a", "d"):
             self.listener_obj = self._Recorder(self)
             atv.listener = self.listener_obj
+            if self.lmode != "d":
+                self.listeners.append(self.listener_obj)
             if self.lmode == "d":
                 import weakref
                 probe = weakref.ref(self.listener_obj)
@@ -390,6 +397,27 @@ class Env:
 
         if tok == "x":
             self.drop_device()
+            return "-"
+        if tok in ("L0", "L1", "L2"):
+            # the application assigns atv.listener again: None / the object it registered last / a new object
+            if self.atv is None:
+                return "gone"
+            if tok == "L0":
+                self.atv.listener = None
+            else:
+                if tok == "L2" or self.listener_obj is None:
+                    self.listener_obj = self._Recorder(self)
+                    self.listeners.append(self.listener_obj)
+                self.atv.listener = self.listener_obj
+            return "-"
+        if tok in ("M0", "M1", "M2"):
+            if tok == "M0":
+                self.held_pu.listener = None
+            else:
+                if tok == "M2":
+                    self.push_listener = type(self.push_listener)(self)
+                    self.push_listeners.append(self.push_listener)
+                self.held_pu.listener = self.push_listener
             return "-"
         if self.atv is None and (tok[0] == "r" or tok == "u"):
             return "gone"
@@ -651,13 +679,19 @@ def exhaustive_cases(shared, ctx):
     behs = ["", "!", "~a%d+a%d+u+a%d" % (itop, iheld, ifeat), "~a%d+u+a%d!" % (iheld, itop)]
     L5, L4 = ctx.scale(5, 6), ctx.scale(4, 5)
     plans = [
-        # (n protocols, max length per behaviour, api symbols, [proto configs as kinds], listeners)
+        # (n protocols, max length per behaviour, api + other symbols, [proto configs as kinds], listeners)
         (1, [L5, L4, L4, L4], [top, held], [[(1, ())], [(0, ("c",))], [(1, ("l0",))]], "a"),
         (1, [L5, 0, 0, 0], [top, held], [[(0, ("c",))]], "n"),
         (2, [L5, L4, L4, L4], [held], [[(1, ("c",)), (0, ("l0",))], [(0, ()), (1, ("c",))]], "a"),
         (2, [L4, 0, 0, 0], [top], [[(1, ("l0", "c")), (1, ())]], "n"),
         (3, [L5, L4, L4, L4], [], [[(1, ("c",)), (0, ()), (2, ("l0",))]], "a"),
         (3, [L4, 3, 3, 3], [top], [[(0, ()), (1, ("c",)), (1, ("c",))]], "a"),
+        # the application assigns atv.listener again (None / same object / new object) at every position
+        (1, [L5, 3, 3, 3], ["L0", "L1", "L2"], [[(0, ("c",))]], "a"),
+        (2, [L4, 3, 0, 0], [held, "L1", "L2"], [[(1, ("c",)), (0, ())]], "a"),
+        (3, [L4, 0, 0, 0], ["L2", "L0"], [[(1, ("c",)), (0, ()), (2, ("l0",))]], "n"),
+        # … and push_updater.listener
+        (1, [L4, 0, 0, 0], [top, "M0", "M1", "M2"], [[(1, ())]], "a"),
     ]
     count = 0
     for n, maxlens, api, configs, listeners in plans:
@@ -719,8 +753,10 @@ def random_cases(shared, ctx, count):
                     events.append("u")
                 else:
                     events.append("a%d" % m)
-            elif x < 0.82:
+            elif x < 0.80:
                 events.append(rng.choice(["s", "s", "t"]))
+            elif x < 0.88:
+                events.append(rng.choice(["L0", "L1", "L1", "L2", "L2", "M0", "M1", "M2"]))
             else:
                 events.append("p%d%s" % (rng.randrange(n), random_beh(rng, nmem, members)))
         lmode = rng.choice(["a", "a", "a", "n", "d"])
@@ -891,7 +927,8 @@ def _evaluate(ctx, shared, cases, judge=True):
         ctx.note("listener:" + case["listener"])
         ctx.note("len:%d" % len(core))
         for e in core:
-            ctx.note("ev:" + ("report" if e[0] == "r" else "close" if e == "u" else "api" if e[0] == "a" else "push"))
+            ctx.note("ev:" + ("report" if e[0] == "r" else "close" if e == "u" else "api" if e[0] == "a" else
+                              "set-listener" if e[0] == "L" else "set-push-listener" if e[0] == "M" else "push"))
             if e[0] in "rp":
                 ctx.note("handler:" + ("raises+reenters" if ("!" in e and "~" in e) else "raises" if "!" in e else "reenters" if "~" in e else "returns"))
         ctx.note("notifications:%d" % len(obs["N"]))
